@@ -288,7 +288,7 @@ class LiteralProvider(LoaderProvider, DumperProvider):
             try:
                 if data in allowed_values:
                     return data
-            except TypeError:  # unhashable data can not be one of the cases
+            except (TypeError, ArithmeticError):  # unhashable or incomparable (signaling NaN) data can not be one of the cases
                 pass
             raise BadVariantLoadError(allowed_values_repr, data)
 
